@@ -21,6 +21,7 @@ import (
 	"github.com/lidofinance/dc4bc/fsm/state_machines/signature_proposal_fsm"
 	"github.com/lidofinance/dc4bc/fsm/state_machines/signing_proposal_fsm"
 	"github.com/lidofinance/dc4bc/fsm/types/requests"
+	"github.com/lidofinance/dc4bc/fsm/types/responses"
 )
 
 const (
@@ -289,7 +290,21 @@ func (am *Machine) writeErrorRequestToOperation(o *client.Operation, handlerErro
 		CreatedAt:     o.CreatedAt,
 	}
 	errorEvent := eventToErrorMap[fsm.State(o.Type)]
-	reqBz, err := json.Marshal(req)
+	var reqBz []byte
+	if fsm.State(o.Type) == signing_proposal_fsm.StateSigningAwaitPartialSigns {
+		// a signing failure names its batch: without it the nodes book a late report on whatever
+		// batch is being signed when it arrives
+		var invitation responses.SigningPartialSignsParticipantInvitationsResponse
+		_ = json.Unmarshal(o.Payload, &invitation) // an undecodable payload leaves the batch unnamed
+		reqBz, err = json.Marshal(requests.SignatureProposalConfirmationErrorRequest{
+			Error:         req.Error,
+			ParticipantId: req.ParticipantId,
+			CreatedAt:     req.CreatedAt,
+			BatchID:       invitation.BatchID,
+		})
+	} else {
+		reqBz, err = json.Marshal(req)
+	}
 	if err != nil {
 		return fmt.Errorf("failed to generate fsm request: %w", err)
 	}
